@@ -1489,7 +1489,7 @@ fn large(c: &mut Case) {
 fn main() {
     runner::main(Spec {
         property: "C04",
-        rule: "families: search (seeded data sets of 1..200 points in 1..6 dims – continuous, lattice, all-identical, collinear, single point, duplicate-heavy, clustered, near-duplicate, binary; f64 and f32; Euclidean / Manhattan / Minkowski p=1..4 / Hamming; 1..4 queries in-sample, midpoint, jittered, in-box, far; all k for n<=12 else 1,2,n-1,n + 4 random; radii equal to an occurring distance, generic, below the smallest positive distance, beyond all; both structures), lattice3x3 (EXHAUSTIVE: every multiset of 1..6 points of the 3x3 lattice in canonical order plus one seeded permutation x all 9 lattice queries x all k x all occurring radii x both structures x Euclidean and Manhattan), heap (HeapSelection driven in the two usage patterns of the structures and mixed, against the model 'k smallest offered, peek = largest kept'), knn_regressor / knn_classifier (fit + predict through the public API, both algorithms, both weight functions, all four metrics, k = 1 / 2 / n edge cases, invalid k); a case is non-trivial when n >= 2 and at least one find / find_radius answer was compared with the brute-force oracle (search, lattice3x3), when more than k elements were offered (heap), when at least one prediction was compared or an invalid k was judged (estimators); distinct = hash of the materialised input",
+        rule: "families: search (seeded data sets of 1..200 points in 1..6 dims – continuous, lattice, all-identical, collinear, single point, duplicate-heavy, clustered, near-duplicate, binary; f64 and f32; Euclidean / Manhattan / Minkowski p=1..4 / Hamming; 1..4 queries in-sample, midpoint, jittered, in-box, far; all k for n<=12 else 1,2,n-1,n + 4 random; radii equal to an occurring distance, generic, below the smallest positive distance, beyond all; both structures), lattice3x3 (EXHAUSTIVE: every multiset of 1..6 points of the 3x3 lattice in canonical order plus one seeded permutation x all 9 lattice queries x all k x all occurring radii x both structures x Euclidean and Manhattan), heap (HeapSelection driven in the two usage patterns of the structures and mixed, against the model 'k smallest offered, peek = largest kept'), knn_regressor / knn_classifier (fit + predict through the public API, both algorithms, both weight functions, all four metrics, k = 1 / 2 / n edge cases, invalid k); a case is non-trivial when n >= 2 and at least one find / find_radius answer was compared with the brute-force oracle (search, lattice3x3), when more than k elements were offered (heap), when at least one prediction was compared or an invalid k was judged (estimators); distinct = hash of the materialised input; large: searches and both estimators over 1025..3000 points; parameter objects are passed to fit as clones in every second case",
         assumptions: vec![
             "the brute-force oracle evaluates the library's own metric on the same pairs (exact comparison); the harness's closed form cross-checks the reported numbers to 4096 eps (relative)",
             "distances are finite and free of overflow/underflow for the generated magnitudes (|coordinates| <= ~1e6)",
@@ -1506,7 +1506,7 @@ fn main() {
             Family::new("heap", 6000, 200000, heap),
             Family::new("knn_regressor", 4000, 150000, knn_regressor),
             Family::new("knn_classifier", 4000, 150000, knn_classifier),
-            Family::new("large", 300, 6000, large),
+            Family::new("large", 200, 1500, large),
         ],
         min_nontrivial: 4000,
         case_timeout_s: 120,
